@@ -8,7 +8,9 @@ Mixes == { <<"fall", "fall", "fall">>, <<"fall", "term", "fall", "rej">>, <<"eat
            \* "hold": consumed by a terminal handler that is still serving when the listener is closed
            <<"hold", "fall">>, <<"fall", "hold", "term">>,
            \* "eatlate": matched non-terminal route, a later route needs more data and says no, fall-through; read late
-           <<"eatlate", "fall">>, <<"eatlate">> }
+           <<"eatlate", "fall">>, <<"eatlate">>,
+           \* "wrapfall": a handler wraps the connection with prefetched bytes unread, a later route prefetches again, fall-through
+           <<"wrapfall", "fall", "wrapfall", "fall">>, <<"wrapfall", "wrapfall", "fall">> }
 Grid == [mix : Mixes, consumer : {"fast", "slow", "absent"}, procs : {1, 2, 16},
          slen : {0, 5, 300, 2048, 5000, 20000}, close : {"end", "early", "earlylate"}, pace : {0, 1}]
 \* "earlylate": closed early, the underlying listener's Accept learns of it 300 ms later (a listener closed by way of
